@@ -253,20 +253,20 @@ Proof.
 Qed.
 
 (* ---------- JavaScript: two shapes ---------- *)
-Lemma lparen_head_nlp gs R : groups gs -> hd_ok noteq (gs ++ R).
+Lemma lparen_head_nlp gs R : bgroups gs -> hd_ok noteq (gs ++ R).
 Proof.
-  intros Hgs. destruct (groups_head gs Hgs) as (p & r & -> & Hp). cbn [app hd_ok]. unfold noteq.
+  intros Hgs. destruct (bgroups_head gs Hgs) as (p & r & -> & Hp). cbn [app hd_ok]. unfold noteq.
   rewrite (symbol_not_operator _ _ _ Hp). reflexivity.
 Qed.
 
-Lemma ar_no_method nm gs B : is_name nm = true -> groups gs -> no_acc cand_arrow follow_brace (nm :: gs) B.
+Lemma ar_no_method nm gs B : is_name nm = true -> bgroups gs -> no_acc cand_arrow follow_brace (nm :: gs) B.
 Proof.
   intros Hnm Hgs. apply (no_acc_cons _ _ cshift_arrow fshift_brace).
   - apply arrow_noteq; [apply name_not_kw_is; exact Hnm | apply lparen_head_nlp; exact Hgs].
-  - apply (groups_no_acc LJavaScript _ _ (good_arrow LJavaScript)). exact Hgs.
+  - apply (bgroups_no_acc LJavaScript _ _ (good_arrow LJavaScript)). exact Hgs.
 Qed.
 
-Lemma ar_no_function fk nm gs B : kw_is fk s_function = true -> is_name nm = true -> groups gs ->
+Lemma ar_no_function fk nm gs B : kw_is fk s_function = true -> is_name nm = true -> bgroups gs ->
   no_acc cand_arrow follow_brace (fk :: nm :: gs) B.
 Proof.
   intros Hfk Hnm Hgs. apply (no_acc_cons _ _ cshift_arrow fshift_brace).
@@ -278,7 +278,7 @@ Qed.
 Lemma fn_no_arrow l f nm eq mid gs arrow B : good l cand_function f ->
   is_name nm = true -> is_operator eq s_eq = true ->
   (mid = [] \/ exists ak, mid = [ak] /\ kw_is ak s_async = true) ->
-  groups gs -> is_symbol arrow s_arrow = true ->
+  bgroups gs -> is_symbol arrow s_arrow = true ->
   no_acc cand_function f (nm :: eq :: mid ++ gs ++ [arrow]) B.
 Proof.
   intros G Hnm Heq Hmid Hgs Har.
@@ -293,7 +293,7 @@ Proof.
     apply no_acc_single. apply function_not_name.
     - apply (kw_is_other ak s_async); [exact Hak | discriminate].
     - apply keyword_not_name. eapply kw_is_keyword; exact Hak. }
-  apply (no_acc_app _ _ cshift_function Hf); [apply (groups_no_acc l _ _ G); exact Hgs|].
+  apply (no_acc_app _ _ cshift_function Hf); [apply (bgroups_no_acc l _ _ G); exact Hgs|].
   eapply (symbol_no_acc l _ _ G). exact Har.
 Qed.
 
